@@ -222,10 +222,10 @@ def addTex (f : Str) : Str :=
 
 /-! ### --single-letters -/
 
-/-- `\b[^\W0-9_]\b`: a letter-like word character (word character that is not a decimal digit
-    0-9 and not `_`) with non-word neighbours -/
+/-- `\b[^\W0-9_]\b` filtered by `str.isalpha()` (since the `fix:` commit): a letter with
+    non-word neighbours; a letter is a word character that is no ASCII digit and not `_` -/
 def isLetterLike (T : Tables) (c : Char) : Bool :=
-  T.isWord c && !('0' ≤ c && c ≤ '9') && c != '_'
+  T.isWord c && !('0' ≤ c && c ≤ '9') && c != '_' && T.isAlpha c
 
 def singleAt (T : Tables) (prev : Option Char) (c : Char) (next : Option Char) : Bool :=
   isLetterLike T c && !(match prev with | some p => T.isWord p | none => false)
